@@ -308,7 +308,7 @@ func (x *Exec) execUnOp(fr *Frame, st *State, i *ssa.UnOp) {
 	case token.ARROW:
 		et := i.X.Type().Underlying().(*types.Chan).Elem()
 		x.note("channel receive abstracted (received value unconstrained)")
-		v := x.chanRecv(fr, st, x.term(fr, i.X), et, i)
+		v := x.chanRecv(fr, st, x.term(fr, i.X), et, i, i.X, tTrue)
 		if i.CommaOk {
 			fr.regs[i] = &TupleVal{Elems: []Val{v, fresh("recv.ok", sortBool)}}
 		} else {
@@ -942,7 +942,7 @@ func (x *Exec) execSelect(fr *Frame, st *State, i *ssa.Select) {
 	for k, s := range i.States {
 		if s.Dir == types.RecvOnly {
 			et := s.Chan.Type().Underlying().(*types.Chan).Elem()
-			v := x.chanRecv(fr, st, x.term(fr, s.Chan), et, i)
+			v := x.chanRecv(fr, st, x.term(fr, s.Chan), et, i, s.Chan, mkEq(idx, mkInt(int64(k))))
 			tv.Elems = append(tv.Elems, v)
 		} else {
 			// the send happens only if this case is chosen
